@@ -296,15 +296,18 @@ func (m *MdnsManager) AnnounceMdnsEntry() error {
 
 	serviceName := m.serviceName
 
-	if err := provider.Announce(serviceName, m.port, txt); err != nil {
+	err := provider.Announce(serviceName, m.port, txt)
+
+	// the provider keeps the request even if it could not publish it right now (it does so once its
+	// daemon is reachable again): the announcement counts as active until it is withdrawn
+	m.mux.Lock()
+	m.setIsServiceAnnounce(true)
+	m.mux.Unlock()
+
+	if err != nil {
 		logging.Log().Debug("mdns: failure announcing service", err)
 		return err
 	}
-
-	m.mux.Lock()
-	defer m.mux.Unlock()
-
-	m.setIsServiceAnnounce(true)
 
 	return nil
 }
